@@ -708,17 +708,19 @@ func (s *Store[K, V]) sinkWrite(item WriteBufItem[K, V]) {
 }
 
 func (s *Store[K, V]) drainWrite() {
-	var wait bool
+	// number of Wait markers in this batch: every one of them has a caller
+	// blocked on waitChan
+	var wait int
 	for _, item := range s.writeBuffer {
 		if item.code == WAIT {
-			wait = true
+			wait++
 			continue
 		}
 		s.sinkWrite(item)
 	}
 
 	s.writeBuffer = s.writeBuffer[:0]
-	if wait {
+	for ; wait > 0; wait-- {
 		s.waitChan <- true
 	}
 }
